@@ -852,8 +852,13 @@ TraceAddItx ==
 TraceOpDone ==
     /\ Line.a = "OpDone"
     /\ nodes' = IF Line.x.kind = "join" /\ Line.o.state # "Shutdown"
-                THEN [ nodes EXCEPT ![Line.n].acceptedRound = Line.x.acceptedRound,
-                                    ![Line.n].h.removedRound = -1 ]
+                THEN LET hd == LastFrom(nodes[Line.n].h, nodes[Line.n].h.me) IN
+                     \* (setHeadAndSeq when the join is answered: a node that re-joins
+                     \* over its own database continues its own chain)
+                     [ nodes EXCEPT ![Line.n].acceptedRound = Line.x.acceptedRound,
+                                    ![Line.n].h.removedRound = -1,
+                                    ![Line.n].head = IF @ = NoEv THEN hd ELSE @,
+                                    ![Line.n].seq = IF nodes[Line.n].head = NoEv /\ hd # NoEv THEN D[hd].i ELSE @ ]
                 ELSE nodes
     /\ stats' = Bump(stats, "lines")
     /\ UNCHANGED << pst, D, dlv, sto, psto, rrv, meta, ref, cev, ctx, base, last, pools, lostSet, evals, fames, sub, viol, drift >>
@@ -1012,8 +1017,15 @@ TraceHeartbeat ==
     /\ LET x == Line.x
            o == Line.o
            must == MustSuspend(x.undet, x.initial, x.limit, x.nvals, x.has_lcr, x.lcr, x.removedRound, x.acceptedRound)
+           \* a node that suspends itself as "evicted" really is outside the validator
+           \* set of its last consensus round (a removal replayed by a bootstrap after
+           \* the node had joined again must not count)
+           member == Line.n \in DOMAIN last /\ SeqContains(EffectiveAt(last[Line.n].ps, x.lcr), Line.n)
            V == Checks("C17", "Inv_C17_AutoSuspend",
                        o.before = "Babbling" => ((o.after = "Suspended") <=> must))
+                \cup Checks("C11", "Inv_C11_EvictedOnlyIfRemoved",
+                            (o.before = "Babbling" /\ o.after = "Suspended" /\ x.has_lcr
+                               /\ ~TooMany(x.undet, x.initial, x.limit, x.nvals)) => ~member)
        IN  viol' = AddCapped(viol, V)
     /\ stats' = [ stats EXCEPT !.lines = @ + 1, !.fameDecided = @ + (IF Line.o.after = "Suspended" /\ Line.o.before = "Babbling" THEN 1 ELSE 0) ]
     /\ UNCHANGED << pst, D, nodes, dlv, sto, psto, rrv, meta, cev, ctx, base, last, pools, lostSet, evals, fames, ref, sub, drift >>
@@ -1094,7 +1106,12 @@ BootOutcome(n, x, o) ==
     LET es == AsSeq(x.order)
         eset == SeqToSet(es)
         me == x.me
-        nd1 == BootNode(D, AsSeq(x.genesis), me, es)
+        \* node.Init leaves a node that finds itself outside the validator set in
+        \* the Joining state: head and seq are only computed (setHeadAndSeq) when
+        \* its join request has been answered
+        joining == "state" \in DOMAIN o /\ o.state = "Joining"
+        nd0 == BootNode(D, AsSeq(x.genesis), me, es)
+        nd1 == IF joining THEN [ nd0 EXCEPT !.head = NoEv, !.seq = -1 ] ELSE nd0
         h1 == nd1.h
         old == dlv[n]
         re == AsSeq(o.blocks)
@@ -1114,8 +1131,9 @@ BootOutcome(n, x, o) ==
              \cup Checks("C11", "Inv_C11_KnowsCompletedInsertions", before \subseteq eset)
              \cup Checks("C11", "Inv_C11_KnowsOnlyWritten", o.nev = Len(es) /\ knownOK)
              \cup Checks("C11", "Inv_C11_HeadRestored",
-                         /\ o.seq = top /\ o.seq >= x.emitted
-                         /\ IF top = -1 THEN o.head = "" ELSE (o.head \in mine /\ D[o.head].i = top))
+                         joining \/
+                         (/\ o.seq = top /\ o.seq >= x.emitted
+                          /\ IF top = -1 THEN o.head = "" ELSE (o.head \in mine /\ D[o.head].i = top)))
              \cup Checks("C11", "Inv_C11_AgreementAfterRestart", Inv_C01_Agreement(dlv1, lostSet, n, 1))
              \cup Checks("C11", "Inv_C11_ConsecutiveAfterRestart", Inv_C02_Consecutive(re, 1, base[n].idx))
              \cup Checks("C02", "Inv_C02_StoreKeepsDelivered", Inv_C02_StoreKeepsDelivered(re, AsSeq(o.store)))
